@@ -124,7 +124,13 @@ CallSpec noise_call(RunCtx& ctx, Rng& rng, std::string& what)
         }
         if (rng.chance(0.4)) {
             std::string d;
-            c.bytes = c.is_xml() ? apply_random_token_fault_xml(c.bytes, rng, d) : apply_random_token_fault_text(c.bytes, rng, d);
+            int f = rng.below(10);
+            if (f < 7)
+                c.bytes = c.is_xml() ? apply_random_token_fault_xml(c.bytes, rng, d) : apply_random_token_fault_text(c.bytes, rng, d);
+            else if (f < 9 && c.is_xml())
+                c.bytes = apply_struct_fault(c.bytes, rng.below(SF_COUNT), rng, d);  // dangling refs, duplicate ids, ...
+            else
+                c.bytes = apply_byte_fault(c.bytes, rng.below(BF_COUNT), rng, d);  // not even well-formed XML
             what += " + " + d;
         }
     } else {
